@@ -6,7 +6,9 @@
    theorems hold for every arithmetic instance (in particular for floats) and
    for every Unicode classification [U]. *)
 From Coq Require Import ZArith NArith List.
+From Coq Require Import Reals.
 From SV Require Import Base.Num Base.Outcome Base.Str Model.Poly Model.Parse Proofs.ParseTotal.
+From SV Require Model.GrammarS Model.GrammarI Proofs.SimpleParse Proofs.InterParse Proofs.ParseFidelity.
 Import ListNotations.
 
 Theorem c16_simple_total : forall (T : Type) (NT : Num T) (U : UClass) (s : str),
@@ -30,6 +32,76 @@ Proof. exact (@Proofs.ParseTotal.simple_term_power). Qed.
 Check c16_simple_power_cap : forall (T : Type) (NT : Num T) (var : option N) (part : str) (c : T) (p : nat),
   @simple_term T NT var part = Ok (c, p) -> (Z.of_nat p <= MAX_POWER)%Z.
 Print Assumptions c16_simple_power_cap.
+
+
+(* ------------------------------------------------------------------------------
+   Acceptance implies fidelity.  The documented grammars are the generative
+   definitions Model/GrammarS.v (univariate) and Model/GrammarI.v (multivariate):
+   sources [src], their text [render], their value side [terms_of] / [src_value].
+   Whatever a parser accepts IS the rendering of a well-formed source — no
+   character is skipped, nothing outside the grammar is accepted — and it is read
+   with exactly the value written in the text.  (The only accepted text that is
+   not a non-empty rendering is the empty / all-whitespace text, read as 0.)
+   ------------------------------------------------------------------------------ *)
+
+Theorem c16_simple_accepts_only_grammar :
+  forall (T : Type) (NT : Num T) (U : UClass), GrammarS.USane U ->
+  forall (s : str) (p : spoly T), @parse_simple T NT U s = Ok p ->
+  strip_ws s = [] \/
+  exists (lead : bool) (v : N) (src : GrammarS.usrc),
+    src <> [] /\ GrammarS.wf_src src = true /\
+    (GrammarS.uses_var src = true -> u_alphabetic U v = true) /\
+    @GrammarS.src_finite T NT src = true /\ sums_finite (@GrammarS.terms_of T NT src) = true /\
+    strip_ws s = GrammarS.render lead v src.
+Proof. exact (@Proofs.SimpleParse.simple_accepts_only_grammar). Qed.
+Check c16_simple_accepts_only_grammar :
+  forall (T : Type) (NT : Num T) (U : UClass), GrammarS.USane U ->
+  forall (s : str) (p : spoly T), @parse_simple T NT U s = Ok p ->
+  strip_ws s = [] \/
+  exists (lead : bool) (v : N) (src : GrammarS.usrc),
+    src <> [] /\ GrammarS.wf_src src = true /\
+    (GrammarS.uses_var src = true -> u_alphabetic U v = true) /\
+    @GrammarS.src_finite T NT src = true /\ sums_finite (@GrammarS.terms_of T NT src) = true /\
+    strip_ws s = GrammarS.render lead v src.
+Print Assumptions c16_simple_accepts_only_grammar.
+
+(* R instance: the accepted polynomial takes, at every point, the value of the text *)
+Theorem c16_simple_fidelity : forall (U : UClass), GrammarS.USane U ->
+  forall (s : str) (p : spoly R), parse_simple U s = Ok p ->
+  (strip_ws s = [] /\ forall x : R, eval_simple p x = 0%R)
+  \/ exists (lead : bool) (v : N) (src : GrammarS.usrc),
+       src <> [] /\ GrammarS.wf_src src = true /\ strip_ws s = GrammarS.render lead v src /\
+       forall x : R, eval_simple p x = Proofs.SimpleParse.src_value src x.
+Proof. exact Proofs.ParseFidelity.simple_fidelity. Qed.
+Check c16_simple_fidelity : forall (U : UClass), GrammarS.USane U ->
+  forall (s : str) (p : spoly R), parse_simple U s = Ok p ->
+  (strip_ws s = [] /\ forall x : R, eval_simple p x = 0%R)
+  \/ exists (lead : bool) (v : N) (src : GrammarS.usrc),
+       src <> [] /\ GrammarS.wf_src src = true /\ strip_ws s = GrammarS.render lead v src /\
+       forall x : R, eval_simple p x = Proofs.SimpleParse.src_value src x.
+Print Assumptions c16_simple_fidelity.
+
+(* multivariate parser: the accepted polynomial is, term for term, the canonical
+   form of the source that the text renders (coefficients, merged and sorted
+   variables with their exponents, sorted variable set) *)
+Theorem c16_inter_accepts_only_grammar :
+  forall (T : Type) (NT : Num T) (U : UClass) (s : str) (p : ipoly T),
+  @parse_inter T NT U s = Ok p ->
+  exists (lead : bool) (src : GrammarI.msrc),
+    @GrammarI.wf_src T NT src = true /\ strip_ws s = GrammarI.render lead src /\
+    p = {| i_terms := @GrammarI.terms_of T NT src; i_vars := GrammarI.vars_of src |}.
+Proof. exact (@Proofs.InterParse.inter_accepts_only_grammar). Qed.
+Check c16_inter_accepts_only_grammar :
+  forall (T : Type) (NT : Num T) (U : UClass) (s : str) (p : ipoly T),
+  @parse_inter T NT U s = Ok p ->
+  exists (lead : bool) (src : GrammarI.msrc),
+    @GrammarI.wf_src T NT src = true /\ strip_ws s = GrammarI.render lead src /\
+    p = {| i_terms := @GrammarI.terms_of T NT src; i_vars := GrammarI.vars_of src |}.
+Print Assumptions c16_inter_accepts_only_grammar.
+
+(* the executable Unicode table satisfies the sanity premise *)
+Example c16_table_sane : GrammarS.USane uclass_tab.
+Proof. exact Proofs.SimpleParse.uclass_tab_sane. Qed.
 
 (* non-vacuity: "x^12" is accepted, an exponent above the cap ("x^65536") is an error value (Z instance) *)
 Example c16_cap_accepts :
